@@ -512,6 +512,19 @@ def _callers_reset(model, cg, fi, l, attr, ws, depth):
     return True, 'every caller empties the buffer first'
 
 
+def _only_from(cg, q, allowed, seen=None):
+    """q is one of `allowed`, or a helper every caller of which (transitively) is: code extracted from a
+    renderer constructor still runs only while a renderer is being constructed."""
+    if q in allowed:
+        return True
+    seen = set() if seen is None else seen
+    if q in seen:
+        return True
+    seen.add(q)
+    callers = cg.callers_of(q)
+    return bool(callers) and all(_only_from(cg, c, allowed, seen) for c in callers)
+
+
 def rule_registry(ctx, rep, as_rule=None, by_loc=None):
     model = ctx.model
     cg = ctx.callgraph()
@@ -534,7 +547,7 @@ def rule_registry(ctx, rep, as_rule=None, by_loc=None):
         rep.instance(rule)
         # (1) who writes
         for w in by_loc.get(l, []):
-            ok = w.fi.qualname in api or w.fi.qualname in renderer_inits
+            ok = w.fi.qualname in api or _only_from(cg, w.fi.qualname, renderer_inits | api)
             rep.obligation(rule, ok, {'registry': l, 'writer': w.fi.short})
             if not ok:
                 rep.find(rule, w.fi.short, 'writes:' + l,
@@ -544,7 +557,7 @@ def rule_registry(ctx, rep, as_rule=None, by_loc=None):
         for n in ('add_token', 'remove_token'):
             f = model.func('%s.%s' % (mod, n))
             for q in cg.callers_of(f):
-                ok = q in renderer_inits
+                ok = _only_from(cg, q, renderer_inits)
                 rep.obligation(rule, ok, {'api': f.short, 'caller': q[len(PKG) + 1:]})
                 if not ok:
                     caller = model.functions[q]
@@ -566,28 +579,7 @@ def rule_registry(ctx, rep, as_rule=None, by_loc=None):
         rep.obligation(rule, ok, {'module': mod, 'import-time reset_tokens()': ok})
         if not ok:
             rep.find(rule, mod, 'import-time-reset', 'module %s no longer initialises its registry with reset_tokens()' % mod, u.relpath)
-    # (3) BaseRenderer.__exit__ calls both resets unconditionally
     ex = model.method('base_renderer.BaseRenderer', '__exit__')
-    rep.instance(rule)
-    called = set()
-    for st in ex.node.body:
-        if isinstance(st, ast.Expr) and isinstance(st.value, ast.Call):
-            site = [s for s in cg.sites if s.node is st.value]
-            for c in (site[0].callees if site else []):
-                called.add(c.qualname)
-        elif isinstance(st, ast.Try):
-            for s2 in st.finalbody:
-                if isinstance(s2, ast.Expr) and isinstance(s2.value, ast.Call):
-                    site = [s for s in cg.sites if s.node is s2.value]
-                    for c in (site[0].callees if site else []):
-                        called.add(c.qualname)
-    for mod in ('block_token', 'span_token'):
-        ok = (PKG + '.%s.reset_tokens' % mod) in called
-        rep.obligation(rule, ok, {'BaseRenderer.__exit__ resets': mod})
-        if not ok:
-            rep.find(rule, 'base_renderer.BaseRenderer.__exit__', 'reset:' + mod,
-                     'BaseRenderer.__exit__ does not unconditionally call %s.reset_tokens(): custom tokens stay active '
-                     'after the context exits' % mod, loc(model.unit_of(ex), ex.node))
     # (4) every __exit__ / __enter__ override reaches super().__exit__ unconditionally
     for c in model.subclasses_of(base):
         if '__exit__' in c.methods:
@@ -611,29 +603,39 @@ def rule_registry(ctx, rep, as_rule=None, by_loc=None):
         if '__enter__' in c.methods:
             m = c.methods['__enter__']
             rep.note('%s overrides __enter__' % c.short)
-    # (6) interpretation: Renderer(); __exit__  => registries equal their import-time value
+    # (3)+(6) interpretation: Renderer(); __exit__(<any exception info>) => on every path the registries
+    # equal their import-time value (a conditional or missing reset shows as a path that leaves them changed)
+    from ..interp import enumerate_paths, Unknown
     for cfg in ctx.configs():
         if cfg.options:
             continue
         rep.instance(rule)
-        it = Interp(model)
-        it.reset_run(Oracle())
-        cfgmod.init_state(model, it)
-        b0 = list(it.global_value(PKG + '.block_token', '_token_types'))
-        s0 = list(it.global_value(PKG + '.span_token', '_token_types'))
-        try:
-            obj = it.construct(cfg.cls, [], {})
-            it.call(it.getattr(obj, '__exit__'), [None, None, None], {})
-            b1 = list(it.global_value(PKG + '.block_token', '_token_types'))
-            s1 = list(it.global_value(PKG + '.span_token', '_token_types'))
-            ok = b0 == b1 and s0 == s1
-            detail = {'block': [c.name for c in b1], 'span': [c.name for c in s1]}
-        except Raised as r:
-            ok, detail = False, {'raised': repr(r.exc)}
-        rep.obligation(rule, ok, {'renderer': cfg.label, 'after __exit__': detail if not ok else 'defaults restored'})
+        outcomes = []
+
+        def runner(oracle, cfg=cfg):
+            it = Interp(model)
+            it.reset_run(oracle)
+            cfgmod.init_state(model, it)
+            b0 = list(it.global_value(PKG + '.block_token', '_token_types'))
+            s0 = list(it.global_value(PKG + '.span_token', '_token_types'))
+            try:
+                obj = it.construct(cfg.cls, [], {})
+                it.call(it.getattr(obj, '__exit__'), [Unknown('exception_type'), Unknown('exception_val'), Unknown('traceback')], {})
+                b1 = list(it.global_value(PKG + '.block_token', '_token_types'))
+                s1 = list(it.global_value(PKG + '.span_token', '_token_types'))
+                return (b0 == b1 and s0 == s1), {'block': [getattr(c, 'name', repr(c)) for c in b1],
+                                                 'span': [getattr(c, 'name', repr(c)) for c in s1]}
+            except Raised as r:
+                return False, {'raised': repr(r.exc)}
+        for trace, res in enumerate_paths(runner, 64):
+            outcomes.append(res)
+        bad = [d for ok_, d in outcomes if not ok_]
+        ok = bool(outcomes) and not bad
+        rep.obligation(rule, ok, {'renderer': cfg.label, 'paths': len(outcomes), 'after __exit__': bad[0] if bad else 'defaults restored'})
         if not ok:
             rep.find(rule, cfg.cls.short, 'enter-exit-restores-defaults',
-                     'after %s() and __exit__ the active token sets are %s, not the defaults' % (cfg.label, detail),
+                     'after %s() and __exit__ there is a path on which the active token sets are %s, not the defaults: custom '
+                     'tokens stay active after the context exits' % (cfg.label, bad[0] if bad else 'undetermined'),
                      loc(model.unit_of(cfg.cls), cfg.cls.node))
     # Scheme renderer (contrib) too
     if model.has_cls('contrib.scheme.Scheme'):
